@@ -80,10 +80,10 @@ def long_fs(case):
             # a string channel of several thousand short values, split over the segments like the others
             total_s = case['strings']
             lo_s, hi_s = total_s * si // nseg, total_s * (si + 1) // nseg
-            vals_s = ['s%d' % (i * 7 % 1000) for i in range(lo_s, hi_s)]
+            vals_s = ['s%d' % (i * 7 % 1000) + ('' if i % 5 else ' °C') + ('\x00' if i % 11 == 0 else '') for i in range(lo_s, hi_s)]
             p = make_path('big', 'text')
             entries.append({'path': p, 'hdr': 'full', 'type': 'str', 'n': len(vals_s),
-                            'total': sum(4 + len(v) for v in vals_s)})
+                            'total': sum(4 + len(v.encode('utf-8')) for v in vals_s)})
             active.append([p, 'str', len(vals_s)])
             data[p] = [vals_s]
         p = make_path('big', 'tail')
@@ -107,7 +107,7 @@ def long_sources(draw):
         chans.append([t, total, draw(st.integers(1, 250)), draw(st.integers(0, 250))])
     nseg = draw(st.integers(1, 3))
     return {'long': True, 'chans': chans, 'nseg': nseg, 'cuts': draw(st.lists(st.integers(0, 8), min_size=2, max_size=2)),
-            'strings': draw(st.sampled_from([0, 0, 4095, 4096, 4097, 8192, 8193, 10000])),
+            'strings': draw(st.sampled_from([0, 0, 1023, 1024, 1025, 4095, 4096, 4097, 8192, 8193, 10000])),
             'picks': None, 'dst': draw(st.sampled_from(['path', 'stream', 'stream', 'same_path'])),
             'src': draw(st.sampled_from(['path', 'stream'])), 'index': draw(st.booleans()),
             'version': draw(st.sampled_from([4712, 4713]))}
